@@ -107,7 +107,8 @@ def run(out, info, tier, seed):
     cases = space if exhaustive else rng.sample(space, 1500)
     # always include the corpus (witnesses of fixed findings)
     corpus = [([0], [1], 'po', 'ti', 0, True, False, True), ([0, 0], [0, 1], 'po', 'ti', 0, True, False, True),
-              ([0], [1], 'po', 'i', 0, True, True, False)]
+              ([0], [1], 'po', 'i', 0, True, True, False),
+              ([], [], 'nope', 'i', 0, False, False, True)]       # (fourth, odd index: run with async_requests=True - witness of the fixed finding F23)
     cases = corpus + cases
     def child_of(idx):
         # hierarchical entities: the attribute facts that count are those of the entity's own model, not its parent's;
@@ -126,12 +127,13 @@ def run(out, info, tier, seed):
         ps, pd, sa, da, sh, w, ini, cache = c
         prior = (idx % 3 == 0) and not exhaustive or (exhaustive and idx % 2 == 0)
         child = child_of(idx)
-        res, unchanged, eff = one_case_wrapped(ps, pd, sa, da, sh, w, ini, cache, prior, child)
+        want_reject = spec_reject(ps, pd, sa, da, sh, w, ini, dst_any=(child[1] if child[1] in (2, 3) else False))
+        asyn = bool(want_reject) and idx % 2 == 1       # every other call that has to be rejected also asks for async_requests
+        res, unchanged, eff = one_case_wrapped(ps, pd, sa, da, sh, w, ini, cache, prior, child, asyn=asyn)
         seen += 1
         hist[res.split(':')[0]] = hist.get(res.split(':')[0], 0) + 1
-        want_reject = spec_reject(ps, pd, sa, da, sh, w, ini, dst_any=(child[1] if child[1] in (2, 3) else False))
         desc = dict(kind='connect', src_group=ps, dst_group=pd, src_attr=sa, dst_attr=da, time_shifted=sh, weak=w,
-                    initial_data=ini, cache=cache, prior_connection=prior, child_entity=list(child))
+                    initial_data=ini, cache=cache, prior_connection=prior, child_entity=list(child), async_requests=asyn)
         # monitor: the property itself on the implementation
         if res.startswith('crashed') or (res == 'rejected') != bool(want_reject):
             violations.append(dict(desc, expected='rejected' if want_reject else 'accepted', observed=res))
@@ -186,7 +188,7 @@ def run(out, info, tier, seed):
                     'outcome_histogram': hist, 'monitor_failures': len(violations), 'correspondence_mismatches': len(mismatches)}
 
 
-def one_case_wrapped(ps, pd, sa, da, sh, w, ini, cache, prior, child=(False, False)):
+def one_case_wrapped(ps, pd, sa, da, sh, w, ini, cache, prior, child=(False, False), asyn=False):
     # build_world does not return entity handles; wrap World.start to record them.  child[k]: the entity of
     # simulator k is a child (model M) of a parent entity of another model P whose attribute facts differ.
     import mosaik.scenario as sc
@@ -228,6 +230,7 @@ def one_case_wrapped(ps, pd, sa, da, sh, w, ini, cache, prior, child=(False, Fal
         if sh: kw['time_shifted'] = sh
         if w: kw['weak'] = True
         if ini: kw['initial_data'] = {sa: 'INIT'}
+        if asyn: kw['async_requests'] = True        # (a rejected call must not leave the async-requests relation behind either)
         try:
             world.connect(src, dst, (sa, da), **kw); res = 'accepted'
         except ScenarioError as e:
@@ -317,7 +320,7 @@ def replay(path, out):
     if r.get('kind') != 'connect':
         print(json.dumps(r, indent=1)); print('obligation replay: re-run ./check C11'); return 1
     res, unchanged, eff = one_case_wrapped(r['src_group'], r['dst_group'], r['src_attr'], r['dst_attr'], r['time_shifted'],
-                                           r['weak'], r['initial_data'], r['cache'], r['prior_connection'], tuple(r.get('child_entity', (False, False))))
+                                           r['weak'], r['initial_data'], r['cache'], r['prior_connection'], tuple(r.get('child_entity', (False, False))), asyn=r.get('async_requests', False))
     want = spec_reject(r['src_group'], r['dst_group'], r['src_attr'], r['dst_attr'], r['time_shifted'], r['weak'], r['initial_data'],
                        dst_any=(tuple(r.get('child_entity', (False, False)))[1] if tuple(r.get('child_entity', (False, False)))[1] in (2, 3) else False))
     print('observed:', res, 'tables unchanged:', unchanged, 'expected:', 'rejected' if want else 'accepted')
